@@ -719,7 +719,12 @@ def main():
       # constant operand disagrees with the (correct) arithmetic of the emitted
       # pattern -- interpreter numerics, not the quantizer's (DESIGN 11, observation O3)
       return bad
-    bound = float(x.sum(axis=-1).max()) * float(np.abs(w).max()) / 127.0 * 0.51 + 1e-4
+    # weight rounding (half a step of at most max|w|/127 per product) PLUS the
+    # hybrid kernel's own dynamic 8-bit quantization of the float operand (half a
+    # step of max|x|/127 per product), 5% slack for float32 accumulation
+    w2 = np.abs(w.astype(np.float64)).reshape([int(d) for d in wt.shape])
+    bound = (float(x.sum(axis=-1).max()) * float(w2.max()) +
+             float(w2.sum(axis=-1).max()) * float(x.max())) / 127.0 * 0.51 * 1.05 + 1e-4
     for key in rf[1]:
       for name, yf in rf[1][key].items():
         yq = rq[1][key].get(name)
